@@ -517,6 +517,11 @@ func (x *Exec) isOld(e *ast.ParenExpr) bool {
 
 func (x *Exec) expr(st *State, e ast.Expr) Val {
 	x.curPos = e.Pos()
+	if x.frozen != nil {
+		if v, ok := x.frozen[e]; ok {
+			return v
+		}
+	}
 	if v, ok := x.constVal(e); ok {
 		return v
 	}
